@@ -22,6 +22,7 @@ func TestMain(m *testing.M) {
 	vh.Rule("rapid: (data type incl. each legal width of the nullable families, value) drawn uniformly over 46 type/width pairs with boundary-biased values (integer boundaries, NaN/Inf/-0 bit patterns, money over int64/int32, numerics of every precision/scale with 0,1,10^k,10^k-1 and random digits, days 0001-01-01..9999-12-31 with bias to year boundaries, leap days and pre-1900, ticks from (tick, sub-half-tick jitter), microsecond times, byte/Unicode strings of length 1..max from all planes); round trip DataType.Bytes -> DataType.GoValue and the package leg PARAMFMT/PARAMS and ROWFMT2/ROW (formats decoded from reference encodings); exhaustive: every uint8, int16, uint16, bit, every day 0001..9999 and every tick of a day (thorough; stride-sampled in quick), NULL for every nullable type. Non-trivial: value is neither NULL nor the type's zero value; distinct by (type,width,value)")
 	vh.Assume("time.Time values are UTC; DATE values are at midnight; TIME/DATETIME values are the exact time of a 1/300 s tick plus at most 1.6 ms so rounding cannot leave the day; smalldatetime days 0..65535; unitext without trailing NUL (decoder documents trimming); empty strings/byte strings excluded (they encode like NULL)")
 	vh.Rule("also: batches of 2..8 values converted in goroutines at the same time (separate race-detector run)")
+	vh.Rule("also: package leg with column status bytes (a third of the cases); temporal values carrying a location (fixed offsets, zones with daylight saving, clock-change days): encode + decode gives back the clock reading to the tick")
 	vh.Main(m, "C04")
 }
 
